@@ -60,8 +60,8 @@ var Rows = []Row{
 	row("numlike", "key", "123", "key2", "-4.5", "id", "007", "id2", "1e3", "id3", "true", "sid", "null", "doc", "0",
 		"field", "1", "field2", "false", "fval", "1e5", "hook", "42", "chan", "-1", "meta", "0", "metav", "00",
 		"sval", "12345", "msg", "5"),
-	row("nan", "fval", "NaN", "sval", "NaN", "msg", "NaN"),
-	row("inf", "fval", "+Inf", "sval", "-Inf", "msg", "Infinity"),
+	row("nan", "fval", "NaN", "sval", "NaN", "msg", "NaN", "hook", "nan", "chan", "NaN", "metav", "nan", "id3", "nan"),
+	row("inf", "fval", "+Inf", "sval", "-Inf", "msg", "Infinity", "hook", "inf", "chan", "-Inf", "metav", "Infinity", "id3", "+inf"),
 	row("jsonval", "fval", `{"a":[1,2,{"b":null}],"c":"d"}`, "sval", `{"a":1,"b":"x","c":[true,false,null]}`, "msg", `{"fence":true,"n":1}`,
 		"metav", `{"m":1}`),
 	row("boolval", "fval", "true", "sval", "true", "msg", "false", "metav", "null"),
